@@ -112,6 +112,9 @@ for n in (0, 1, 2, 3):
         for empty in (True, False):
             c = Case(f"{n}-branches{'-others' if others else ''}{'-empty' if empty else ''}", [case_shape(n, others, empty), SCOPE], case_spec(n))
             c.native = False
+            # the choices of this shape are the constants 0..n-1: different constants have different literals (the case of
+            # equal choice texts is the subject of the `distinct-choices` cases below, with symbolic texts)
+            c.interp_flags = {"opaque_texts_distinct": True}
             con.cases.append(c)
 
 
@@ -176,7 +179,7 @@ for root_kind in (Unsigned, Signed, BitVector):
                 continue  # a slice is a BitVector view; typed views of slices are covered by the cast contracts
             c = Case(f"selector:{view_kind.__name__}{'-slice' if sliced else ''}-of-{root_kind.__name__}", [typed_case_shape(root_kind, view_kind, sliced), SCOPE], typed_case_spec(root_kind))
             c.native = False
-            c.interp_flags = {"class_call_models": {VR.Value: _value_ctor}}
+            c.interp_flags = {"class_call_models": {VR.Value: _value_ctor}, "opaque_texts_distinct": True}
             con.cases.append(c)
 
 
@@ -214,7 +217,66 @@ for n in (0, 1, 2):
     for default in (True, False):
         c = Case(f"{n}-branches{'-default' if default else '-nodefault'}", [select_shape(n, default), SCOPE], select_spec(n, default))
         c.native = False
+        c.interp_flags = {"opaque_texts_distinct": True}  # choices: the constants 0..n-1, see above
         c.custom_replay = "contracts.c06_extra.replay_select_no_default"
+        con.cases.append(c)
+
+
+# ---- distinct choices ---------------------------------------------------------------------------------
+# The choices of a case statement / selected assignment must be pairwise distinct (VHDL LRM: every value of the selector
+# is represented once and only once).  The choice texts are symbolic strings here: the writer may only return on paths
+# where they are pairwise different (a Python `match` with a repeated pattern, a select_with dictionary whose keys `1`
+# and `Unsigned[2](1)` are different Python objects and the same VHDL literal).
+def _choice_text(it, self, *a, **k):
+    return self.fields["__text__"] if "__text__" in self.fields else _write_model(it, self, *a, **k)
+
+
+def _sym_choices(n):
+    return [(SObj(VR.Constant, result=i, __text__=SStr(z3.Const(f"choice_text{i}", sym.StrS))), i) for i in range(n)]
+
+
+def distinct_spec(field, index):
+    def spec(sx, self, scope):
+        texts = [b[0].fields["__text__"] for b in sx.real_args[0].fields[field]]
+
+        def holds(res):
+            if not (isinstance(res, SObj) and issubclass(res.kind, TextBlock)):
+                return False
+            return sym.And(*[texts[i].term != texts[j].term for i in range(len(texts)) for j in range(i)]) if len(texts) > 1 else True
+
+        return C.Pred(holds, "returns only when the emitted choices are pairwise distinct")
+
+    return spec
+
+
+def _distinct_case_shape(n):
+    def make(env):
+        cond = SObj(VR.Value, result=SObj(Signal, _value=SObj(Bit, _val=None), _ref_spec=[]))
+        cond.fields["result"].fields["_root"] = cond.fields["result"]
+        br = [(c, SObj(VR.CodeBlock, _stmts=[], __empty__=False)) for c, _ in _sym_choices(n)]
+        return SObj(VR.CaseWhen, _cond=cond, _branches=br, _others=None)
+
+    return Built([], make, lambda asg: "None", lambda asg: None)
+
+
+def _distinct_select_shape(n):
+    def make(env):
+        arg = SObj(VR.Value, result=SObj(Signal, _value=SObj(Bit, _val=None), _ref_spec=[]))
+        arg.fields["result"].fields["_root"] = arg.fields["result"]
+        br = [(c, SObj(VR.Value, result=None)) for c, _ in _sym_choices(n)]
+        return SObj(VR.SelectWith, _arg=arg, _branches=br, _default=SObj(VR.Value, result=None), _target=SObj(VR.Target, result=None))
+
+    return Built([], make, lambda asg: "None", lambda asg: None)
+
+
+for _cls, _shape, _field in ((VR.CaseWhen, _distinct_case_shape, "_branches"), (VR.SelectWith, _distinct_select_shape, "_branches")):
+    con = contract(VRM + _cls.__name__ + ".write", PROPS)
+    for n in (2, 3):
+        c = Case(f"distinct-choices:{n}", [_shape(n), SCOPE], distinct_spec(_field, 0))
+        c.native = False
+        c.may_reject = AssertionError
+        c.models = [(VR.Value.__dict__["write"], _choice_text)]  # Constant inherits Value.write
+        c.custom_replay = "contracts.c06_extra.replay_duplicate_choices"
         con.cases.append(c)
 
 
